@@ -19,8 +19,13 @@ func VerifC04Recreate() {
 	inbox := w.db.AddBox("INBOX", "mb-inbox", 2)
 	w.addMessage(inbox, 1)
 	w.user.uidValSeq = 100
-	st := w.newState(1)
-	ctx := ctxFor(st)
+	// fam 1: two sessions of the user act on one name that exists from the start, CREATE / DELETE only (a value one
+	// session drew for a command that failed must not surface later); fam 0: one session, two names, all four commands
+	fam := vsymParam("fam")
+	sts := []*State{w.newState(1), w.newState(2)}
+	if fam == 1 {
+		w.db.AddBox("a", "mb-a0", 50)
+	}
 	seenBox := map[imap.InternalMailboxID]bool{}
 	maxUIDV := map[string]imap.UID{}
 	for _, b := range w.db.Boxes {
@@ -29,8 +34,14 @@ func VerifC04Recreate() {
 	}
 	names := []string{"a", "b"}
 	for step := 0; step < k; step++ {
-		n := names[vsymChoice("name", 2)]
-		switch vsymChoice("op", 4) {
+		n, st, nops := names[0], sts[0], 4
+		if fam == 1 {
+			st, nops = sts[vsymChoice("session", 2)], 2
+		} else {
+			n = names[vsymChoice("name", 2)]
+		}
+		ctx := ctxFor(st)
+		switch vsymChoice("op", nops) {
 		case 0:
 			_ = st.Create(ctx, n)
 		case 1:
